@@ -27,13 +27,13 @@ RULE = ('Hypothesis project models (profile intro: all target kinds, generated s
         'compared with: build.ninja statements (filenames, compile inputs, compile parameters, all-membership), argv/env/suites really used by `meson test`, '
         'the tree really created by `meson install --destdir` (overall and per tag), get_option() messages, and the build files the generator wrote. '
         'non-trivial = project with >=1 generated source or subproject and >=1 test and >=1 install rule; distinct by model hash. '
-        'Corpus half (harness/c15corpus.py): projects of the repository\'s `test cases/{common,unit,native,linuxlike}` that configure here - a fixed '
+        'Corpus half (harness/c15corpus.py): projects of the repository\'s `test cases/{common,unit,native,linuxlike,rust,java}` that configure here - a fixed '
         'sample plus a seed-chosen sample in the quick tier, all of them in the thorough tier - with the model-free relations: intro-targets filenames '
         '= outputs of the producing build.ninja statements, C/C++ sources = inputs of the compile statements of the private dir, compile parameters = ARGS; '
         'intro-buildsystem_files (meson.build / option files) = the files the meson process really opened (audit hook); intro-tests cmd/env/workdir = what '
         'recorder stand-ins of the built programs receive under `meson test`; test depends within the test-prereq closure; intro-installed = tree created by '
         '`meson install --destdir`; all unchanged by a no-change reconfigure. non-trivial there = >=2 targets, a compared source block and a recorded test '
-        'or an installed entry.')
+        'or an installed entry. Cross-build family: seeded assignments of per-machine options (pkg_config_path, cmake_prefix_path, c_args, c_link_args, c_std and their build.* twins) in a cross build for the same machine; every intro-buildoptions entry must equal what get_option() of that name returned.')
 ASSUMPTIONS = [
     'build.ninja is read by harness/refninja.py',
     'installed built targets are represented by placeholder files created by the harness at the paths build.ninja produces (nothing is compiled); `meson install --no-rebuild` copies them',
@@ -544,7 +544,86 @@ CORPUS_FIXED = [
     'test cases/common/105 generatorcustom', 'test cases/common/117 shared module', 'test cases/common/145 recursive linking',
     'test cases/common/98 subproject subdir', 'test cases/common/8 install', 'test cases/common/186 test depends',
     'test cases/common/13 pch', 'test cases/rust/22 cargo subproject', 'test cases/rust/33 cargo workspace',
+    'test cases/java/1 basic', 'test cases/java/7 linking',       # a jar() as test program
 ]
+
+
+# ---------------------------------------------------------------------------------------------------------
+# per-machine options in a cross build: intro-buildoptions.json lists `build.<opt>` next to `<opt>`; each must be the value
+# get_option() returned for THAT machine
+
+XCROSS_INI = ("[binaries]\nc = 'cc'\nar = 'ar'\nstrip = 'strip'\npkg-config = 'pkg-config'\n\n"
+              "[host_machine]\nsystem = 'linux'\ncpu_family = 'x86_64'\ncpu = 'x86_64'\nendian = 'little'\n")
+XCROSS_OPTS = {'pkg_config_path': ['/h/pc', '/h/a,/h/b', ''], 'cmake_prefix_path': ['/h/cm', '/h/x,/h/y'],
+               'c_args': ['-DHOSTSIDE', '-DH1,-DH2', ''], 'c_link_args': ['-Wl,--as-needed', ''], 'c_std': ['c99', 'gnu11', 'none']}
+
+
+def cross_options_case(seed: int) -> dict:
+    import random
+    rnd = random.Random(f'c15-cross:{seed}')
+    vals: T.Dict[str, str] = {}
+    for o, pool in sorted(XCROSS_OPTS.items()):
+        if rnd.random() < 0.8:
+            vals[o] = rnd.choice(pool)
+        if rnd.random() < 0.8:
+            vals['build.' + o] = rnd.choice([v.replace('/h/', '/b/').replace('HOSTSIDE', 'BUILDSIDE').replace('-DH', '-DB') for v in pool] + ['c11'] * (o == 'c_std'))
+    return {'cross_options': vals, 'lang': rnd.random() < 0.7}
+
+
+def check_cross_options(c: dict, workdir: str, ev: T.Optional[Evidence], sub: bool = False) -> T.Optional[Failure]:
+    shutil.rmtree(workdir, ignore_errors=True)
+    src, bld = os.path.join(workdir, 'src'), os.path.join(workdir, 'bld')
+    vals = {k: v for k, v in c['cross_options'].items() if c['lang'] or not k.split('.')[-1].startswith('c_')}
+    names = sorted({o for o in XCROSS_OPTS if c['lang'] or not o.startswith('c_')})
+    body = "project('xopts'" + (", 'c'" if c['lang'] else '') + ")\n"
+    if c['lang']:
+        body += "add_languages('c', native: true)\n"
+    for o in names:
+        for k in (o, 'build.' + o):
+            body += f"message('OPT:{k}=@0@'.format(get_option('{k}')))\n"
+    try:
+        write_tree(src, {'meson.build': body, 'x.ini': XCROSS_INI})
+        args = ['setup', '--cross-file', os.path.join(src, 'x.ini')] + [f'-D{k}={v}' for k, v in sorted(vals.items())] + [bld, src]
+        r = (run_sub if sub else run_inproc)(args)
+        if r.rc != 0:
+            if r.unhandled:
+                return Failure('setup/unhandled-exception', c, r.text[-1500:])
+            return Failure('setup/rejected', c, f'cross-options project failed to configure ({" ".join(args[1:-2])}):\n{r.text[-1200:]}')
+        with open(os.path.join(bld, 'meson-info', 'intro-buildoptions.json'), encoding='utf-8') as fh:
+            bo = {o['name']: o['value'] for o in json.load(fh)}
+        msgs = dict(x[4:].split('=', 1) for x in r.messages() if x.startswith('OPT:'))
+        if len(msgs) != 2 * len(names):
+            raise HarnessError(f'cross-options project printed {len(msgs)} OPT messages, expected {2 * len(names)}')
+        for k, shown in sorted(msgs.items()):
+            if k not in bo:
+                return Failure('buildoptions/missing', c, f'cross build: intro-buildoptions.json has no entry for {k!r} although get_option({k!r}) returned {shown!r}')
+            v = bo[k]
+            rv = '[' + ', '.join("'" + x + "'" for x in v) + ']' if isinstance(v, list) else ('true' if v is True else 'false' if v is False else str(v))
+            if rv != shown:
+                return Failure('buildoptions/value-differs:per-machine', c,
+                               f'cross build ({" ".join(a for a in args if a.startswith("-D"))}): intro-buildoptions.json {k}={v!r} but get_option({k!r}) returned {shown!r}')
+        if ev is not None:
+            differing = sum(1 for o in names if msgs.get(o) != msgs.get('build.' + o))
+            ev.case(c, nontrivial=differing >= 1, cls='cross-options')
+        return None
+    finally:
+        shutil.rmtree(workdir, ignore_errors=True)
+
+
+def _cross_shard(seeds: T.List[int], ev: Evidence, fails: T.List[Failure]) -> None:
+    work = make_scratch('c15-cross')
+    sigs: T.Set[str] = set()
+    try:
+        for s_ in seeds:
+            c = cross_options_case(s_)
+            f = check_cross_options(c, os.path.join(work, 'case'), ev)
+            if f is not None:
+                f = check_cross_options(c, os.path.join(work, 'case'), None, sub=True)
+            if f is not None and f.sig not in sigs:
+                sigs.add(f.sig)
+                fails.append(f)
+    finally:
+        shutil.rmtree(work, ignore_errors=True)
 
 
 def _corpus_shard(shard: T.List[T.Tuple[str, T.Tuple[str, ...]]], ev: Evidence, fails: T.List[Failure]) -> None:
@@ -564,6 +643,8 @@ def _corpus_shard(shard: T.List[T.Tuple[str, T.Tuple[str, ...]]], ev: Evidence, 
 def _any_shard(shard: T.Tuple[str, T.Any], ev: Evidence, fails: T.List[Failure]) -> None:
     if shard[0] == 'gen':
         _shard(shard[1], ev, fails)
+    elif shard[0] == 'cross':
+        _cross_shard(shard[1], ev, fails)
     else:
         _corpus_shard(shard[1], ev, fails)
 
@@ -584,10 +665,14 @@ def run(ctx: Ctx) -> None:
     ctx.ev.extra['corpus_projects_taken'] = len(chosen)
     nsh = 16 if ctx.quick else 48
     corpus = [('corpus', chosen[i::nsh]) for i in range(nsh) if chosen[i::nsh]]
-    pmap(ctx, _any_shard, [('gen', (s, per)) for s in shard_seeds(ctx, 16)] + corpus)
+    ncross = ctx.n(16, 160)
+    cross = [('cross', [ctx.seed * 1000 + i for i in range(k, ncross, 8)]) for k in range(8)]
+    pmap(ctx, _any_shard, [('gen', (s, per)) for s in shard_seeds(ctx, 16)] + corpus + cross)
 
 
 def replay(ctx: Ctx, case: T.Any, doc: dict) -> T.Optional[Failure]:
+    if isinstance(case, dict) and 'cross_options' in case:
+        return check_cross_options(case, os.path.join(ctx.scratch, 'replay'), None, sub=True)
     if isinstance(case, dict) and 'corpus' in case:
         return c15_corpus.check_corpus(case, os.path.join(ctx.scratch, 'replay'), None)
     return check_case(case, os.path.join(ctx.scratch, 'replay'), None, sub=True)
